@@ -387,6 +387,8 @@ def _c18_cases(tier, seed):
         ([("halton", 1), ("rseq", 1)], [("set_samplers", [("rseq", 1), ("best", 1)]), ("calibrate", [])]),
         ([("halton", 2), ("halton", 1), ("random", 1)], [("calibrate", []), ("set_scheduler", [("best", 1), ("rseq", 1)]), ("calibrate", [])]),
         ([("random", 1), ("halton", 1)], [("set_samplers", [("random", 1), ("halton", 1), ("rseq", 2)]), ("calibrate", []), ("calibrate", [])]),
+        # no replacement at all, a class repeated before other classes first appear (ids are first-seen ranks)
+        ([("halton", 1), ("halton", 2), ("random", 1), ("rseq", 1)], [("calibrate", []), ("calibrate", []), ("calibrate", [])]),
         # a replacement that REPEATS a class not yet in the table, then a further replacement with another new class
         ([("halton", 1), ("random", 1)], [("set_samplers", [("rseq", 1), ("halton", 1), ("rseq", 2)]), ("calibrate", []),
                                           ("set_scheduler", [("best", 1), ("random", 1)]), ("calibrate", [])]),
